@@ -242,8 +242,6 @@ def _key(segs, i, ctx, tl):
             return []
         out = []
         for c in children(ctx):
-            if is_set(c.node):
-                raise Unspecified("pass-through into a set")
             out.extend(_key(segs, i, c, tl))
         return out
     if is_set(node):
